@@ -341,48 +341,64 @@ func (r *Run) lookupHandle(kind byte, b []byte) (*Poly, bool) {
 	return nil, false
 }
 
-// intern assigns a handle to a symbolic term: provably equal terms share a handle, otherwise the
-// genericity assumption t ≠ t' is recorded (it is consistent: equality was not entailed).
+// intern assigns a handle to a symbolic term: provably equal terms share a handle; terms with
+// different handles are assumed to denote different values (genericity / random-oracle
+// idealisation). That pairwise distinctness is kept IMPLICIT: it is not materialised as O(n²)
+// literals but enforced lazily — every model or witness the engine uses is checked against it
+// (internViolations) and the violated pairs are then asserted explicitly (solve, seedModel,
+// pathWitness). Candidates for "provably equal" are found through the current path witness: only
+// entries that evaluate to the same value under it can be entailed equal.
 func (r *Run) intern(kind byte, p *Poly, size int) []byte {
 	r.mu.Lock()
 	defer r.mu.Unlock()
-	for _, e := range r.interned {
-		if e.kind != kind {
-			continue
-		}
-		if e.p.equalForm(p) {
-			return append([]byte(nil), e.h...)
-		}
+	pk := string(kind) + p.key()
+	if ix, ok := r.internKey[pk]; ok {
+		return append([]byte(nil), r.interned[ix].h...)
 	}
-	for _, e := range r.interned {
-		if e.kind != kind {
-			continue
-		}
+	tryEqual := func(ix int) (shared bool) {
+		e := r.interned[ix]
 		eq := simplifyEqZ(p.sub(e.p, r.q))
 		if _, isF := eq.(pFalse); isF {
-			continue
+			return false
 		}
 		switch r.entailed(eq) {
 		case Unsat: // negation unsatisfiable: provably equal under the path condition
-			return append([]byte(nil), e.h...)
+			return true
 		case Unknown:
 			r.poison("inconclusive", "interning: equality of hashed terms undecided")
 		}
+		return false
 	}
-	// new handle; record genericity assumptions against all previous terms of the same kind
-	// (not in serialisation-only mode, where encodings are never hashed or compared unless the
-	// terms are provably equal: see SetSerializationOnly)
-	for _, e := range r.interned {
-		if r.serializationOnly {
-			break
+	w := r.pathWitness()
+	if w != nil {
+		r.syncInternVals(w)
+		vk := string(kind) + p.eval(w, r.q).String()
+		cands := append([]int(nil), r.internVals[vk]...)
+		for _, ix := range cands {
+			if tryEqual(ix) {
+				r.internKey[pk] = ix
+				return append([]byte(nil), r.interned[ix].h...)
+			}
 		}
-		if e.kind != kind {
-			continue
+		if len(cands) > 0 && !r.serializationOnly {
+			// the witness makes two different handles coincide: assert their distinctness explicitly,
+			// so that the next witness respects it
+			for _, ix := range cands {
+				g := Not(simplifyEqZ(p.sub(r.interned[ix].p, r.q)))
+				if k := g.key(); !r.genericK[k] && !r.pathK[k] {
+					r.genericK[k] = true
+					r.generic = append(r.generic, g)
+				}
+			}
+			r.witnessOK = false
 		}
-		g := Not(simplifyEqZ(p.sub(e.p, r.q)))
-		if k := g.key(); !r.genericK[k] && !r.pathK[k] {
-			r.genericK[k] = true
-			r.generic = append(r.generic, g)
+	} else {
+		// no witness available: compare against every entry (slow path)
+		for ix, e := range r.interned {
+			if e.kind == kind && tryEqual(ix) {
+				r.internKey[pk] = ix
+				return append([]byte(nil), e.h...)
+			}
 		}
 	}
 	h := make([]byte, size)
@@ -390,6 +406,72 @@ func (r *Run) intern(kind byte, p *Poly, size int) []byte {
 	h[len(handleMagic)] = kind
 	binary.BigEndian.PutUint32(h[size-4:], uint32(len(r.interned)+1))
 	r.interned = append(r.interned, internEntry{kind: kind, p: p, h: h})
-	r.handleIx[string(h)] = len(r.interned) - 1
+	ix := len(r.interned) - 1
+	r.handleIx[string(h)] = ix
+	r.internKey[pk] = ix
+	if w != nil && r.internValsN == ix && r.internValsWitness == r.witnessGen {
+		vk := string(kind) + p.eval(w, r.q).String()
+		r.internVals[vk] = append(r.internVals[vk], ix)
+		r.internValsN = ix + 1
+	}
 	return append([]byte(nil), h...)
+}
+
+// syncInternVals (re)builds the index value-under-witness → interned entries.
+func (r *Run) syncInternVals(w map[int]*big.Int) {
+	if r.internVals == nil || r.internValsWitness != r.witnessGen {
+		r.internVals = map[string][]int{}
+		r.internValsN = 0
+		r.internValsWitness = r.witnessGen
+	}
+	for ix := r.internValsN; ix < len(r.interned); ix++ {
+		e := r.interned[ix]
+		vk := string(e.kind) + e.p.eval(w, r.q).String()
+		r.internVals[vk] = append(r.internVals[vk], ix)
+	}
+	r.internValsN = len(r.interned)
+}
+
+// internViolations returns the implicit genericity assumptions violated by the assignment m: pairs
+// of interned terms with different handles that m makes equal.
+func (r *Run) internViolations(m map[int]*big.Int) []Pred {
+	if r.serializationOnly || len(r.interned) < 2 {
+		return nil
+	}
+	first := map[string]int{}
+	var out []Pred
+	for ix, e := range r.interned {
+		vk := string(e.kind) + e.p.eval(m, r.q).String()
+		if j, dup := first[vk]; dup {
+			out = append(out, Not(simplifyEqZ(e.p.sub(r.interned[j].p, r.q))))
+			continue
+		}
+		first[vk] = ix
+	}
+	return out
+}
+
+// pairwiseGeneric materialises the implicit distinctness assumptions (used only to re-ask a raw
+// query that came back sat).
+func (r *Run) pairwiseGeneric(limit int) ([]Pred, bool) {
+	if r.serializationOnly {
+		return nil, true
+	}
+	if len(r.interned) > limit {
+		return nil, false
+	}
+	var out []Pred
+	for i := range r.interned {
+		for j := 0; j < i; j++ {
+			if r.interned[i].kind != r.interned[j].kind {
+				continue
+			}
+			g := Not(simplifyEqZ(r.interned[i].p.sub(r.interned[j].p, r.q)))
+			if _, isT := g.(pTrue); isT {
+				continue
+			}
+			out = append(out, g)
+		}
+	}
+	return out, true
 }
